@@ -75,7 +75,13 @@ def shaped_graph(rng, version):
 
 
 def cases(rng, tier, shard, nshards):
+    from . import history as H
     while True:
+        if rng.random() < 0.25:
+            c = H.gen_history(rng, nsteps=rng.randint(3, 12), failing=0.1, fanout=True, tags=False)
+            c["k"] = "history"
+            yield c
+            continue
         version = rng.choice(["gfa1", "gfa2"])
         if rng.random() < 0.7:
             lines, feats = shaped_graph(rng, version)
@@ -87,6 +93,17 @@ def cases(rng, tier, shard, nshards):
 
 
 def run(case, ctx):
+    if case.get("k") == "history":
+        from . import history as H
+
+        def judge(g, model, st):
+            ctx.count("checks_after_history_step")
+            return topo.check_topology(ctx, g, model.text_lines(), case["version"])
+        shape = H.run_history(case, ctx, compare_every=False, after_step=judge)
+        ctx.count("histories")
+        if any(x.startswith("rename") or "cascade" in x for x in shape):
+            ctx.nontriv(case["steps"])
+        return
     version, lines = case["version"], case["lines"]
     rng = random.Random(case["seed"])
     r = call(ctx, "Gfa(list)", gfapy.Gfa, lines, version=version)
